@@ -243,7 +243,7 @@ def p_moveaxis(rng: Any) -> tuple[str, list[Any]]:
     return 'moveaxis/M@MT', [m, mt]
 
 
-N_NEARMISS = 7
+N_NEARMISS = 8
 
 
 def p_nearmiss(rng: Any, form: int | None = None) -> tuple[str, list[Any]]:
@@ -303,6 +303,14 @@ def p_nearmiss(rng: Any, form: int | None = None) -> tuple[str, list[Any]]:
         r1 = gen.a_reshape(rng, s)
         r2 = ReshapeOperator(tuple(gen.leaves(r1.out_structure())[0].shape), in_structure=s)
         return ('nearmiss/reshape@otherreshape.T', [r1, r2.T]) if rng.integers(2) else ('nearmiss/reshape.T@otherreshape', [r1.T, r2])
+    if form == 7:      # P @ P.T of an index operator whose indices repeat (same object: only the duplicate-free case is an identity)
+        n0 = s.shape[0]
+        k = int(rng.integers(2, n0 + 2))
+        arr = rng.integers(0, n0, k)
+        arr[int(rng.integers(1, k))] = arr[0]
+        idx = (jnp.asarray(arr, dtype=jnp.int32),)
+        ix = IndexOperator(idx, in_structure=s, out_structure=gen.index_out_structure(s, idx))
+        return 'nearmiss/index@index.T-with-duplicates', [ix, ix.T]
     # lazy inverse next to an equal but different operator
     band = jnp.asarray([4.0, 1.0], dtype=s.dtype)
     x1 = SymmetricBandToeplitzOperator(band, s, method='dense')
@@ -354,6 +362,29 @@ def p_blocks_cancel(rng: Any) -> tuple[str, list[Any]]:
     return 'blocks_cancel', [BlockDiagonalOperator(c), BlockDiagonalOperator(_same_container(c, lefts, rights))]
 
 
+def p_blocks_after_mismatch(rng: Any) -> tuple[str, list[Any]]:
+    """A valid product of two block operators that cannot be paired block by block (one side stores a single block acting on
+    the whole container), followed in the same chain by a pair of the SAME two classes that can: the second pair must still be
+    simplified (whether a pair simplifies depends on the instances, not on the classes)."""
+    if rng.integers(2):
+        _, (d1, d2) = p_blocks(rng, 2)                       # Diag @ Diag
+        whole = d1.out_structure()
+        k = gen.a_diagonal(rng, whole) if rng.integers(2) else None
+        if k is None:
+            k = HomothetyOperator(jnp.asarray(float(rng.integers(2, 5)), dtype=gen.data_dtype(whole)), whole)
+        return 'blocks/diag@diag-after-mismatch', [BlockDiagonalOperator(k), d1, d2]
+    _, (r2, k2) = p_blocks(rng, 3)                           # Row @ Col
+    common = r2.out_structure()
+    n = int(rng.integers(2, 4))
+    mids = [_leaf(rng) for _ in range(n)]
+    col = [gen.leaf_connector(rng, common, m) for m in mids]
+    row = [gen.leaf_connector(rng, m, _leaf(rng) if False else common) for m in mids]
+    c = _block_container(rng, col)
+    k1 = BlockColumnOperator(BlockColumnOperator(c))         # one block whose OUTPUT is the container
+    r1 = BlockRowOperator(_same_container(c, col, row))
+    return 'blocks/row@col-after-mismatch', [r1, k1, r2, k2]
+
+
 PATTERNS = {
     'inverse': p_inverse,
     'qurot': p_qurot,
@@ -369,6 +400,7 @@ PATTERNS = {
     'nearmiss': p_nearmiss,
     'blockdiag_identities': p_blockdiag_identities,
     'blocks_cancel': p_blocks_cancel,
+    'blocks_after_mismatch': p_blocks_after_mismatch,
 }
 
 INERT = ('dense', 'diagonal', 'toeplitz', 'broadcast_diagonal')
